@@ -50,13 +50,26 @@ def clamp_type(iv, ct):
     return m or r
 
 
-def path_of(n):
+def path_of(n, _depth=0):
     """access path string of an integer/pointer lvalue, or None."""
     n = strip(n)
     if n is None:
         return None
     k = n["k"]
     if k == "DeclRefExpr":
+        # a local reference that is bound once names the object it is bound to: `const SufHead& head = sr->h;`
+        f_ = n.get("_f")
+        if f_ is not None and n.get("dk") == "Var" and _depth < 4:
+            from .cfg import _stable_local_inits
+            ini = _stable_local_inits(f_).get(n.get("declId"))
+            vd = getattr(f_, "_vardecl_ct", None)
+            if vd is None:
+                vd = {v.get("declId"): (v.get("ct") or v.get("t") or "") for v in f_.walk() if v["k"] == "VarDecl"}
+                f_._vardecl_ct = vd
+            if ini is not None and vd.get(n.get("declId"), "").rstrip().endswith("&"):
+                p_ = path_of(ini, _depth + 1)
+                if p_ is not None:
+                    return p_
         return n.get("declId")
     if k == "MemberExpr":
         ks = kids(n)
